@@ -181,6 +181,20 @@ def run_cell(cell, seed):
             okc, d, ratio = util.compare_many([('out[%d] kept slice' % i, u[kn, kc], util.np64(v[kn, kc]))
                                                for i, (u, v) in enumerate(zip(y2, yx))], tol)
             out.append(res(HELD, case, 'M-LEAK', ratio=ratio) if okc else res(VIOLATED, case, 'M-LEAK', d, ratio=ratio))
+        # ... also when the other slices hold non-finite values (0*inf = nan would leak through a dense weight)
+        case = {'cell': cell, 'check': 'leak-nonfinite'}
+        xs3 = [t.clone() for t in xs]
+        for t3, t1 in zip(xs3, xs):
+            t3[:] = float('inf')
+            t3.view(t3.shape[0], t3.shape[1], -1)[:, :, ::3] = float('nan')
+            t3[kn, kc] = t1[kn, kc]
+        ok3, y3 = util.call_lib(ad.apply, xs3)
+        if not ok3:
+            out.append(res(VIOLATED, case, 'M-LEAK', 'transform raised %r' % (y3,)))
+        else:
+            okc, d, ratio = util.compare_many([('out[%d] kept slice' % i, u[kn, kc], util.np64(v[kn, kc]))
+                                               for i, (u, v) in enumerate(zip(y3, yx))], tol)
+            out.append(res(HELD, case, 'M-LEAK', ratio=ratio) if okc else res(VIOLATED, case, 'M-LEAK', d, ratio=ratio))
     return out
 
 
